@@ -226,7 +226,7 @@ def run_group(src, crate, geom, extra, harnesses, timeout_s, jobs, tdir, logdir)
     logf = os.path.join(logdir, f"{tag}.log")
     cmd = [
         "cargo", "kani", "--features", features_for(crate, geom, extra), "--target-dir", tdir,
-        "-Z", "unstable-options", "-Z", "stubbing", "-j", str(jobs), "--output-format", "terse",
+        "-Z", "unstable-options", "-Z", "stubbing", "--no-assertion-reach-checks", "-j", str(jobs), "--output-format", "terse",
         "--export-json", out_json, "--harness-timeout", f"{timeout_s}s", "--exact",
     ]
     if any(h.module.startswith("bin_") for h in harnesses):
@@ -422,6 +422,8 @@ def main():
                 seen.add(r["harness_id"])
                 rec = analyse(r, h, geom, hdir, prop, findings, stats.get(r["harness_id"], {}))
                 results.append(rec)
+                log(f"  {h.name}@{geom}: {rec['status']} {rec['duration_ms'] / 1000:.0f}s checks={rec['checks_total']}"
+                    + (f" other-props={sorted({p for p, _ in rec['other_props']})}" if rec["other_props"] else ""))
                 for f, c in rec["known"]:
                     key = (f.get("property"), f.get("text"))
                     if key not in known_printed:
